@@ -60,8 +60,9 @@ THEOREMS = [
     "Measured.framed_convert", "Measured.framed_planConversion", "Measured.framed_eq", "Measured.framed_lt",
     "Measured.framed_add", "Measured.queries_frame",
     "Measured.C08.path_search_pure", "Measured.C08.flat_conversion_history_free", "Measured.C08.conversion_changes_no_declaration", "Measured.C08.no_query_changes_the_declarations",
+    "Measured.queries_good", "Measured.Obligations.History.shippedState_after", "Measured.Obligations.History.after_any_history", "Measured.Obligations.History.sample_history_valid",
 ]
-LEAN_TARGETS = ["Props.C08", "Props.C08Planner", "Props.C08Declared", "Proofs.Flat", "Proofs.Frame", "Obligations.C08", "Props.Planner"]
+LEAN_TARGETS = ["Props.C08", "Props.C08Planner", "Props.C08Declared", "Proofs.Flat", "Proofs.Frame", "Obligations.C08", "Props.Planner", "Obligations.History"]
 QUICK = {"chunks": 4, "ops": 500}
 THOROUGH = {"chunks": 16, "ops": 3000}
 RULE = ("histories of 15-40 actions over 3-5 freshly defined base units and shipped units; non-trivial = a query whose "
